@@ -28,7 +28,9 @@ build_sv(void)
 	}
 }
 
-static const size_t frag_classes[5] = { 512, 1024, 2048, 4096, 16384 };
+/* buffer size classes; 8192 has no max_fragment_length code: such an endpoint works with 4096-byte fragments */
+static const size_t frag_classes[6] = { 512, 1024, 2048, 4096, 8192, 16384 };
+static const size_t frag_effective[6] = { 512, 1024, 2048, 4096, 4096, 16384 };
 
 static void
 set_buffers(tp_cfg *c, int layout, size_t frag, int extra)
@@ -93,11 +95,11 @@ main(int argc, char **argv)
 		/* systematic part: layouts and size classes cycle with the variant, rest random */
 		clayout = (int)((variant + vf_below(&r, 3)) % 3);
 		slayout = (int)vf_below(&r, 3);
-		ccls = (int)((variant / 3 + vf_below(&r, 5)) % 5);
-		scls = ccls + (int)vf_below(&r, (uint32_t)(5 - ccls));   /* server class >= client class */
+		ccls = (int)((variant / 3 + vf_below(&r, 6)) % 6);
+		scls = ccls + (int)vf_below(&r, (uint32_t)(6 - ccls));   /* server class >= client class */
 		if (!full16k && vf_below(&r, 4) != 0) {
 			/* keep most sessions cheap: 16 KiB classes only for a quarter of the cases */
-			if (ccls == 4) ccls = (int)vf_below(&r, 4);
+			if (ccls == 5) ccls = (int)vf_below(&r, 5);
 			if (scls < ccls) scls = ccls;
 		}
 		cfrag = frag_classes[ccls]; sfrag = frag_classes[scls];
@@ -126,8 +128,8 @@ main(int argc, char **argv)
 		vf_bytes(&r, sc.seed, 32);
 
 		/* effective fragment length in each direction: the client's class bounds both */
-		eff_c = cfrag;
-		eff_s = cfrag < sfrag ? cfrag : sfrag;
+		eff_c = frag_effective[ccls];
+		eff_s = frag_effective[ccls < scls ? ccls : scls];
 		c_total = plan_len(&r, eff_c, (int)vf_below(&r, 8));
 		s_total = plan_len(&r, eff_s, (int)vf_below(&r, 8));
 		if (chunk == TP_CHUNK_ONE && (c_total + s_total) > 6000) {
